@@ -88,13 +88,27 @@ def audit(prop, modules, theorem_names):
     return p.returncode, out, res
 
 
-def prepare(prop):
+def leanchecker(mods):
+    """Independent re-check of the compiled .olean files (thorough tier)."""
+    p = subprocess.run(['lake', 'env', 'leanchecker', *mods], cwd=LEAN_DIR, stdout=subprocess.PIPE,
+                       stderr=subprocess.STDOUT, timeout=3600)
+    return p.returncode, p.stdout.decode(errors='replace')
+
+
+def prepare(prop, tier='quick'):
     os.makedirs(WORK, exist_ok=True)
     out = dict(infra_error=None, broken_ties=[], audit={})
     lockf = open(os.path.join(WORK, 'lake.lock'), 'w')
     fcntl.flock(lockf, fcntl.LOCK_EX)
     try:
-        return _prepare(prop, out)
+        out = _prepare(prop, out)
+        if tier == 'thorough' and not out['infra_error']:
+            rc, log = leanchecker(prop.lean_targets)
+            if rc != 0:
+                out['infra_error'] = 'leanchecker rejected the compiled theorems:\n' + log[-1500:]
+            else:
+                out['audit']['leanchecker'] = 'ok: ' + ' '.join(prop.lean_targets)
+        return out
     finally:
         fcntl.flock(lockf, fcntl.LOCK_UN)
         lockf.close()
